@@ -35,7 +35,9 @@ theorem centres (lo hi : K) (n i : ℕ) :
     centre lo hi n i = lo + ((i : K) + 1 / 2) * ((hi - lo) / (n : K)) := by
   unfold centre dx; rw [half_eq]; ring
 
-/-- the whole coordinate array: `N` entries, entry `i` is the centre of cell `i` -/
+/-- the whole coordinate array of one axis: `N` entries, entry `i` is the centre of cell `i`
+(`centreList`; the grid-level statement about `Grid.axesCoords` / `Grid.discretization`, which is what
+the driver evaluates for every class incl. `UnitGrid`, is `grid_centres_and_dx` in section 5b) -/
 theorem centres_list (lo hi : K) (n : ℕ) :
     (centreList lo hi n).length = n ∧
       ∀ i (h : i < (centreList lo hi n).length),
@@ -1230,6 +1232,392 @@ theorem difference_component_le_half_period (g : Grid K) (h : ∀ a ∈ g.axes, 
     subst hc
     exact ⟨wrap_abs_le_half_period d _ hL, d, rfl, fun k => wrap_min_image d _ hL k⟩
 
+/-! ### 5b. grid-level statements and compositions: the definitions the driver evaluates
+
+#### `grid.discretization` and `grid.axes_coords` -/
+
+theorem Grid.dxOf_eq (g : Grid K) (a : Axis K) (h : a.WF g.cls) :
+    g.dxOf a = (a.hi - a.lo) / (a.n : K) := by
+  unfold Grid.dxOf
+  cases hc : g.cls <;> simp only
+  · obtain ⟨h0, h1⟩ := h.2.2 hc
+    have hn : (a.n : K) ≠ 0 := Nat.cast_ne_zero.mpr h.1
+    rw [h0, h1, sub_zero, div_self hn]; simp [unitDx]
+  all_goals rfl
+
+theorem Grid.centreOf_eq (g : Grid K) (a : Axis K) (i : ℕ) (h : a.WF g.cls) :
+    g.centreOf a i = a.lo + ((i : K) + 1 / 2) * ((a.hi - a.lo) / (a.n : K)) := by
+  unfold Grid.centreOf
+  cases hc : g.cls <;> simp only
+  · obtain ⟨h0, h1⟩ := h.2.2 hc
+    have hn : (a.n : K) ≠ 0 := Nat.cast_ne_zero.mpr h.1
+    rw [h0, h1, sub_zero, div_self hn]; unfold unitCentre; rw [half_eq]; ring
+  all_goals exact centres a.lo a.hi a.n i
+
+/-- **C12** grid level (what `grid.discretization` and `grid.axes_coords` return, every class
+including `UnitGrid`'s literals): axis `ax` has spacing `(hi - lo)/N` and `N` centres, centre `i`
+at `lo + (i + 1/2) dx` -/
+theorem grid_centres_and_dx (g : Grid K) (h : ∀ a ∈ g.axes, a.WF g.cls) (ax : ℕ) (a : Axis K)
+    (ha : g.axes[ax]? = some a) :
+    g.discretization[ax]? = some ((a.hi - a.lo) / (a.n : K)) ∧
+      ∃ cs, g.axesCoords[ax]? = some cs ∧ cs.length = a.n ∧
+        ∀ i (hi : i < cs.length), cs[i] = a.lo + ((i : K) + 1 / 2) * ((a.hi - a.lo) / (a.n : K)) := by
+  have hw := h a (List.mem_of_getElem? ha)
+  refine ⟨?_, (List.range a.n).map (g.centreOf a), ?_, by simp, ?_⟩
+  · simp only [Grid.discretization, List.getElem?_map, ha, Option.map_some, g.dxOf_eq a hw]
+  · simp only [Grid.axesCoords, List.getElem?_map, ha, Option.map_some]
+  · intro i hi
+    simp only [List.getElem_map, List.getElem_range]
+    exact g.centreOf_eq a i hw
+
+
+/-! #### compositions cell <-> Cartesian -/
+
+/-- grid -> Cartesian -> grid is the identity for whole points of every class (list level) -/
+theorem grid_cart_grid_points (g : Grid K) (h : g.WF) (p : List K) (hl : p.length = g.axes.length)
+    (hr : (g.cls = .unit ∨ g.cls = .cartesian) ∨ ∀ r ∈ p.head?, 0 ≤ r) (r' : K) (hr' : 0 ≤ r')
+    (e : r' ^ 2 = g.radiusSq (g.toCartesian p)) :
+    g.fromCartesian r' (g.toCartesian p) = p := by
+  obtain ⟨_, hc⟩ := h
+  cases hcls : g.cls
+  · simp [Grid.toCartesian, Grid.fromCartesian, hcls]
+  · simp [Grid.toCartesian, Grid.fromCartesian, hcls]
+  · rw [hcls] at hc
+    have h1 : p.length = 1 := by rw [hl]; exact hc.1
+    match p, h1 with
+    | [r], _ =>
+      have hr0 : 0 ≤ r := by
+        rcases hr with (hu | hu) | hr
+        · rw [hcls] at hu; cases hu
+        · rw [hcls] at hu; cases hu
+        · exact hr r (by simp)
+      exact (grid_cart_grid g r 0 r' hr0 hr').1 hcls e
+  · rw [hcls] at hc
+    have h1 : p.length = 1 := by rw [hl]; exact hc.1
+    match p, h1 with
+    | [r], _ =>
+      have hr0 : 0 ≤ r := by
+        rcases hr with (hu | hu) | hr
+        · rw [hcls] at hu; cases hu
+        · rw [hcls] at hu; cases hu
+        · exact hr r (by simp)
+      exact (grid_cart_grid g r 0 r' hr0 hr').2.1 hcls e
+  · rw [hcls] at hc
+    have h2 : p.length = 2 := by rw [hl]; exact hc.1
+    match p, h2 with
+    | [r, z], _ =>
+      have hr0 : 0 ≤ r := by
+        rcases hr with (hu | hu) | hr
+        · rw [hcls] at hu; cases hu
+        · rw [hcls] at hu; cases hu
+        · exact hr r (by simp)
+      exact (grid_cart_grid g r z r' hr0 hr').2.2 hcls e
+
+/-- **C12** cell -> Cartesian -> cell is the identity (every class; on the symmetric grids for
+cell coordinates whose radius is `≥ 0`, for any value `r' ≥ 0` with the right square that the
+external `hypot`/`norm` returns) -/
+theorem cell_cart_cell (g : Grid K) (h : g.WF) (c : List K) (hl : c.length = g.axes.length)
+    (hr : (g.cls = .unit ∨ g.cls = .cartesian) ∨ ∀ r ∈ (g.cellToGrid c).head?, 0 ≤ r) (r' : K)
+    (hr' : 0 ≤ r') (e : r' ^ 2 = g.radiusSq (g.cellToCartesian c)) :
+    g.cartesianToCell r' (g.cellToCartesian c) = c := by
+  unfold Grid.cartesianToCell Grid.cellToCartesian at *
+  have hl' : (g.cellToGrid c).length = g.axes.length := by simp [Grid.cellToGrid, hl]
+  rw [grid_cart_grid_points g h _ hl' hr r' hr' e]
+  exact (cell_grid_inverse_points g h.1 c hl).1
+
+/-- **C12** Cartesian -> cell -> Cartesian is Cartesian -> grid -> Cartesian, i.e. the symmetry
+projection of `cart_grid_cart` (identity on Cartesian grids): the detour through cell
+coordinates loses nothing -/
+theorem cart_cell_cart (g : Grid K) (h : g.WF) (x : List K) (r' : K)
+    (hx : g.cls = .unit ∨ g.cls = .cartesian → x.length = g.axes.length) :
+    g.cellToCartesian (g.cartesianToCell r' x) = g.toCartesian (g.fromCartesian r' x) := by
+  unfold Grid.cartesianToCell Grid.cellToCartesian
+  have hl : (g.fromCartesian r' x).length = g.axes.length := by
+    obtain ⟨_, hc⟩ := h
+    cases hcls : g.cls <;> rw [hcls] at hc <;> simp only [Grid.fromCartesian, hcls]
+    · exact hx (Or.inl hcls)
+    · exact hx (Or.inr hcls)
+    · simp [hc.1]
+    · simp [hc.1]
+    · simp [hc.1]
+  rw [(cell_grid_inverse_points g h.1 _ hl).2]
+
+/-- the radius (and `z`) survive Cartesian -> cell -> Cartesian -/
+theorem cart_cell_cart_radius (g : Grid K) (h : g.WF) (x : List K) (r' : K)
+    (hx : g.cls = .unit ∨ g.cls = .cartesian → x.length = g.axes.length)
+    (e : r' ^ 2 = g.radiusSq x) :
+    g.radiusSq (g.cellToCartesian (g.cartesianToCell r' x)) = g.radiusSq x ∧
+      (g.cls = .cylindrical →
+        (g.cellToCartesian (g.cartesianToCell r' x)).drop 2 = [(x.drop 2).headD 0]) ∧
+      (g.cls = .unit ∨ g.cls = .cartesian → g.cellToCartesian (g.cartesianToCell r' x) = x) := by
+  rw [cart_cell_cart g h x r' hx]
+  obtain ⟨h1, h2, h3, h4⟩ := cart_grid_cart g x r' e
+  refine ⟨?_, fun hc => (h3 hc).2, h4⟩
+  cases hcls : g.cls
+  · rw [h4 (Or.inl hcls)]
+  · rw [h4 (Or.inr hcls)]
+  · exact h1 hcls
+  · exact h2 hcls
+  · exact (h3 hcls).1
+
+
+/-! #### containment in the three coordinate systems, normalised points -/
+
+/-- `contains_point(coords="cell")` of the cell coordinates of a point is `contains_point(coords=
+"grid")` of the point, and conversely -/
+theorem contains_cell_iff_grid (g : Grid K) (h : ∀ a ∈ g.axes, a.WF g.cls) (p c : List K)
+    (hc : c.length = g.axes.length) :
+    g.containsCellPoint (g.gridToCell p) = g.containsGrid p ∧
+      g.containsGrid (g.cellToGrid c) = g.containsCellPoint c := by
+  refine ⟨rfl, ?_⟩
+  unfold Grid.containsGrid Grid.containsCellPoint
+  rw [(cell_grid_inverse_points g h c hc).1]
+
+/-- the Cartesian image of a grid point under ANY angles (`c^2 + s^2 = 1`) is mapped back to that
+grid point: `point_from_cartesian ∘ pos_to_cart` drops the angles -/
+theorem from_cart_any_angle (g : Grid K) (r z r' c s ct st : K) (hr : 0 ≤ r) (hr' : 0 ≤ r')
+    (hcs : c ^ 2 + s ^ 2 = 1) (hts : ct ^ 2 + st ^ 2 = 1) :
+    (g.cls = .polar → r' ^ 2 = g.radiusSq (polarToCart r c s) →
+        g.fromCartesian r' (polarToCart r c s) = [r]) ∧
+    (g.cls = .spherical → r' ^ 2 = g.radiusSq (sphToCart r ct st c s) →
+        g.fromCartesian r' (sphToCart r ct st c s) = [r]) ∧
+    (g.cls = .cylindrical → r' ^ 2 = g.radiusSq (cylToCart r c s z) →
+        g.fromCartesian r' (cylToCart r c s z) = [r, z]) := by
+  refine ⟨?_, ?_, ?_⟩
+  · intro hc e
+    have e2 : g.radiusSq (polarToCart r c s) = r ^ 2 := by
+      simp only [Grid.radiusSq, hc, polarToCart, List.take]; exact cart_polar_roundtrip r c s hcs
+    rw [e2] at e
+    simp only [Grid.fromCartesian, hc, radius_unique r r' hr hr' e]
+  · intro hc e
+    have e2 : g.radiusSq (sphToCart r ct st c s) = r ^ 2 := by
+      simp only [Grid.radiusSq, hc, sphToCart, List.take]; exact cart_sph_roundtrip r ct st c s hts hcs
+    rw [e2] at e
+    simp only [Grid.fromCartesian, hc, radius_unique r r' hr hr' e]
+  · intro hc e
+    have e2 : g.radiusSq (cylToCart r c s z) = r ^ 2 := by
+      simp only [Grid.radiusSq, hc]; exact (cart_cyl_roundtrip r c s z hcs).1
+    rw [e2] at e
+    simp only [Grid.fromCartesian, hc, radius_unique r r' hr hr' e, cylToCart, List.drop, List.headD_cons]
+
+/-- **C12** a point that is contained in grid coordinates is contained in the API's default
+Cartesian coordinates, whatever the angles of its Cartesian image, and in cell coordinates
+(`get_random_point(coords="cartesian" | "cell")` of every class) -/
+theorem contained_in_all_coords (g : Grid K) (r z r' c s ct st : K) (hr : 0 ≤ r) (hr' : 0 ≤ r')
+    (hcs : c ^ 2 + s ^ 2 = 1) (hts : ct ^ 2 + st ^ 2 = 1) :
+    (g.cls = .polar → r' ^ 2 = g.radiusSq (polarToCart r c s) → g.containsGrid [r] = true →
+        g.containsCartesian r' (polarToCart r c s) = true ∧ g.containsCellPoint (g.gridToCell [r]) = true) ∧
+    (g.cls = .spherical → r' ^ 2 = g.radiusSq (sphToCart r ct st c s) → g.containsGrid [r] = true →
+        g.containsCartesian r' (sphToCart r ct st c s) = true ∧ g.containsCellPoint (g.gridToCell [r]) = true) ∧
+    (g.cls = .cylindrical → r' ^ 2 = g.radiusSq (cylToCart r c s z) → g.containsGrid [r, z] = true →
+        g.containsCartesian r' (cylToCart r c s z) = true ∧ g.containsCellPoint (g.gridToCell [r, z]) = true) ∧
+    (g.cls = .unit ∨ g.cls = .cartesian → ∀ p : List K, g.containsGrid p = true →
+        g.containsCartesian r' p = true ∧ g.containsCellPoint (g.gridToCell p) = true) := by
+  obtain ⟨h1, h2, h3⟩ := from_cart_any_angle g r z r' c s ct st hr hr' hcs hts
+  refine ⟨?_, ?_, ?_, ?_⟩
+  · intro hc e hp; unfold Grid.containsCartesian; rw [h1 hc e]; exact ⟨hp, hp⟩
+  · intro hc e hp; unfold Grid.containsCartesian; rw [h2 hc e]; exact ⟨hp, hp⟩
+  · intro hc e hp; unfold Grid.containsCartesian; rw [h3 hc e]; exact ⟨hp, hp⟩
+  · rintro (hc | hc) p hp <;> refine ⟨?_, hp⟩ <;>
+      simpa [Grid.containsCartesian, Grid.fromCartesian, hc] using hp
+
+/-- **C12** a normalised point is contained in the grid: every axis is periodic or `reflect` is
+set (`normalize_point` followed by `contains_point(coords="grid")`, every class and dimension) -/
+theorem normalizePoint_contained (g : Grid K) (h : ∀ a ∈ g.axes, a.WF g.cls) (reflect : Bool)
+    (p : List K) (hl : p.length = g.axes.length)
+    (hper : ∀ a ∈ g.axes, a.periodic = true ∨ reflect = true) :
+    g.containsGrid (g.normalizePoint reflect p) = true := by
+  apply contains_of_in_bounds g h
+  · simp [Grid.normalizePoint, hl]
+  · intro q hq
+    have hd := normalizePoint_in_domain g (fun a ha => (h a ha).2.1) reflect p q hq
+    have hmem : q.1 ∈ g.axes := (List.of_mem_zip hq).1
+    cases hp : q.1.periodic
+    · have hrf : reflect = true := by
+        rcases hper q.1 hmem with h' | h'
+        · rw [hp] at h'; cases h'
+        · exact h'
+      exact hd.2 hp hrf
+    · obtain ⟨a1, a2⟩ := hd.1 hp
+      exact ⟨a1, a2.le⟩
+
+
+/-! #### period shifts in grid and in cell coordinates -/
+
+/-- shift the grid coordinate of every periodic axis by a whole number of its periods -/
+def shiftAxes : List (Axis K) → List ℤ → List K → List K
+  | a :: as, k :: ks, x :: xs =>
+    (if a.periodic then x + (k : K) * (a.hi - a.lo) else x) :: shiftAxes as ks xs
+  | _, _, xs => xs
+
+/-- the same in cell coordinates: a period is `N` cells -/
+def shiftAxesCell : List (Axis K) → List ℤ → List K → List K
+  | a :: as, k :: ks, c :: cs =>
+    (if a.periodic then c + (k : K) * (a.n : K) else c) :: shiftAxesCell as ks cs
+  | _, _, cs => cs
+
+theorem shiftAxes_eq_shiftPeriodic (as : List (Axis K)) (ks : List ℤ) (xs : List K) :
+    shiftAxes as ks xs
+      = shiftPeriodic (as.map (·.periodic)) (as.map fun a => (a.lo, a.hi)) ks xs := by
+  induction as generalizing ks xs with
+  | nil => simp [shiftAxes, shiftPeriodic]
+  | cons a as ih =>
+    cases ks with
+    | nil => simp [shiftAxes, shiftPeriodic]
+    | cons k ks =>
+      cases xs with
+      | nil => simp [shiftAxes, shiftPeriodic]
+      | cons x xs => simp only [shiftAxes, List.map_cons, shiftPeriodic, ih ks xs]
+
+/-- the radial axis of a symmetric grid is never periodic (the constructors pass
+`periodic=[False]` / `[False, periodic_z]`) -/
+def Grid.RadialNotPeriodic (g : Grid K) : Prop :=
+  (g.cls = .polar ∨ g.cls = .spherical ∨ g.cls = .cylindrical) → ∀ a ∈ g.axes.head?, a.periodic = false
+
+/-- a period shift of the grid coordinates is a period shift of the wrapped Cartesian components -/
+theorem toCartesian_shiftAxes (g : Grid K) (h : g.WF) (hnp : g.RadialNotPeriodic) (ks : List ℤ)
+    (p : List K) (hl : p.length = g.axes.length) :
+    ∃ ks' : List ℤ, g.toCartesian (shiftAxes g.axes ks p)
+      = shiftPeriodic g.diffFlags g.diffBounds ks' (g.toCartesian p) := by
+  obtain ⟨_, hc⟩ := h
+  rcases g with ⟨cls, axes⟩
+  simp only at hc hl
+  unfold Grid.RadialNotPeriodic at hnp
+  simp only at hnp
+  cases cls
+  · exact ⟨ks, by simp [Grid.toCartesian, Grid.diffFlags, Grid.diffBounds, shiftAxes_eq_shiftPeriodic]⟩
+  · exact ⟨ks, by simp [Grid.toCartesian, Grid.diffFlags, Grid.diffBounds, shiftAxes_eq_shiftPeriodic]⟩
+  · -- polar: nothing is shifted, nothing is wrapped
+    match axes, hc.1, p, hl with
+    | [a], _, [r], _ =>
+      have ha : a.periodic = false := hnp (Or.inl rfl) a (by simp)
+      refine ⟨[], ?_⟩
+      cases ks <;> simp [shiftAxes, ha, shiftPeriodic]
+  · match axes, hc.1, p, hl with
+    | [a], _, [r], _ =>
+      have ha : a.periodic = false := hnp (Or.inr (Or.inl rfl)) a (by simp)
+      refine ⟨[], ?_⟩
+      cases ks <;> simp [shiftAxes, ha, shiftPeriodic]
+  · match axes, hc.1, p, hl with
+    | [a, z], _, [r, pz], _ =>
+      have ha : a.periodic = false := hnp (Or.inr (Or.inr rfl)) a (by simp)
+      match ks with
+      | [] => exact ⟨[], by simp [shiftAxes, shiftPeriodic]⟩
+      | [k0] => exact ⟨[], by simp [shiftAxes, ha, shiftPeriodic]⟩
+      | k0 :: k1 :: _ =>
+        refine ⟨[0, 0, k1], ?_⟩
+        cases hz : z.periodic <;>
+          simp [shiftAxes, ha, hz, shiftPeriodic, Grid.toCartesian, Grid.diffFlags, Grid.diffBounds, cylToCart]
+
+/-- **C12** distances and difference vectors are invariant under period shifts of either point
+given in GRID coordinates (`coords="grid"`, the API default; every class, any whole number of
+periods along every periodic axis at once) -/
+theorem distance_invariant_under_period_shift_grid (g : Grid K) (h : g.WF) (hnp : g.RadialNotPeriodic)
+    (p1 p2 : List K) (ks : List ℤ) (hl1 : p1.length = g.axes.length) (hl2 : p2.length = g.axes.length) :
+    g.differenceVectorGrid p1 (shiftAxes g.axes ks p2) = g.differenceVectorGrid p1 p2 ∧
+    g.distSqGrid p1 (shiftAxes g.axes ks p2) = g.distSqGrid p1 p2 ∧
+    g.distSqGrid (shiftAxes g.axes ks p1) p2 = g.distSqGrid p1 p2 := by
+  have hlt : ∀ a ∈ g.axes, a.lo < a.hi := fun a ha => (h.1 a ha).2.1
+  obtain ⟨k2, e2⟩ := toCartesian_shiftAxes g h hnp ks p2 hl2
+  obtain ⟨k1, e1⟩ := toCartesian_shiftAxes g h hnp ks p1 hl1
+  unfold Grid.distSqGrid Grid.differenceVectorGrid
+  rw [e2, e1]
+  obtain ⟨a, b, _⟩ := distance_invariant_under_period_shift g hlt (g.toCartesian p1) (g.toCartesian p2) k2
+  obtain ⟨_, _, c⟩ := distance_invariant_under_period_shift g hlt (g.toCartesian p1) (g.toCartesian p2) k1
+  exact ⟨a, b, c⟩
+
+theorem Grid.n_mul_dxOf (g : Grid K) (a : Axis K) (h : a.WF g.cls) : (a.n : K) * g.dxOf a = a.hi - a.lo := by
+  have hn : (a.n : K) ≠ 0 := Nat.cast_ne_zero.mpr h.1
+  rw [g.dxOf_eq a h]; field_simp
+
+/-- a shift by `k N` cells is a shift by `k` periods of the grid coordinate -/
+theorem cellToGrid_shiftAxesCell (g : Grid K) (h : ∀ a ∈ g.axes, a.WF g.cls) (ks : List ℤ) (c : List K) :
+    g.cellToGrid (shiftAxesCell g.axes ks c) = shiftAxes g.axes ks (g.cellToGrid c) := by
+  unfold Grid.cellToGrid
+  generalize g.axes = as at h
+  induction as generalizing ks c with
+  | nil => simp [shiftAxesCell, shiftAxes]
+  | cons a as ih =>
+    cases ks with
+    | nil => simp [shiftAxesCell, shiftAxes]
+    | cons k ks =>
+      cases c with
+      | nil => simp [shiftAxesCell, shiftAxes]
+      | cons x xs =>
+        have e := g.n_mul_dxOf a (h a List.mem_cons_self)
+        simp only [shiftAxesCell, List.zipWith_cons_cons, shiftAxes,
+          ih ks xs (fun b hb => h b (List.mem_cons_of_mem _ hb))]
+        congr 1
+        cases a.periodic
+        · simp
+        · simp only [if_true, cellToGrid1]; rw [← e]; ring
+
+/-- **C12** the same for points given in CELL coordinates (`coords="cell"`): a shift by a whole
+number of periods is a shift by `k N` cells -/
+theorem distance_invariant_under_period_shift_cell (g : Grid K) (h : g.WF) (hnp : g.RadialNotPeriodic)
+    (c1 c2 : List K) (ks : List ℤ) (hl1 : c1.length = g.axes.length) (hl2 : c2.length = g.axes.length) :
+    g.differenceVectorCell c1 (shiftAxesCell g.axes ks c2) = g.differenceVectorCell c1 c2 ∧
+    g.distSqCell c1 (shiftAxesCell g.axes ks c2) = g.distSqCell c1 c2 ∧
+    g.distSqCell (shiftAxesCell g.axes ks c1) c2 = g.distSqCell c1 c2 := by
+  have l1 : (g.cellToGrid c1).length = g.axes.length := by simp [Grid.cellToGrid, hl1]
+  have l2 : (g.cellToGrid c2).length = g.axes.length := by simp [Grid.cellToGrid, hl2]
+  obtain ⟨a, b, c⟩ := distance_invariant_under_period_shift_grid g h hnp _ _ ks l1 l2
+  unfold Grid.distSqCell Grid.differenceVectorCell
+  rw [cellToGrid_shiftAxesCell g h.1, cellToGrid_shiftAxesCell g h.1]
+  exact ⟨a, b, c⟩
+
+/-- distances are symmetric in cell coordinates as well -/
+theorem distance_symmetric_cell (g : Grid K) (h : ∀ a ∈ g.axes, a.lo < a.hi) (c1 c2 : List K) :
+    g.distSqCell c1 c2 = g.distSqCell c2 c1 :=
+  (distance_symmetric g h (g.cellToGrid c1) (g.cellToGrid c2)).2
+
+/-! #### period images (mirror points) -/
+
+theorem normSq_wrapComponents_zero (ps : List Bool) (bs : List (K × K)) (ds : List K)
+    (hb : ∀ b ∈ bs, b.1 < b.2) (hd : ∀ d ∈ ds, d = 0) : normSq (wrapComponents ps bs ds) = 0 := by
+  have hz : ∀ ds : List K, (∀ d ∈ ds, d = 0) → normSq ds = 0 := by
+    intro ds hd
+    induction ds with
+    | nil => simp [normSq]
+    | cons d ds ih =>
+      simp only [normSq, hd d List.mem_cons_self, ih (fun e he => hd e (List.mem_cons_of_mem _ he))]
+      ring
+  induction ps generalizing bs ds with
+  | nil => simp only [wrapComponents]; exact hz ds hd
+  | cons per ps ih =>
+    cases bs with
+    | nil => simp only [wrapComponents]; exact hz ds hd
+    | cons b bs =>
+      cases ds with
+      | nil => simp [wrapComponents, normSq]
+      | cons d ds =>
+        have hL : 0 < b.2 - b.1 := sub_pos.mpr (hb b List.mem_cons_self)
+        have h0 : d = 0 := hd d List.mem_cons_self
+        have hw : wrap (0 : K) (b.2 - b.1) = 0 := wrap_of_small 0 _ hL (by linarith) (by linarith)
+        simp only [wrapComponents, normSq, h0, hw, ite_self,
+          ih bs ds (fun c hc => hb c (List.mem_cons_of_mem _ hc)) (fun e he => hd e (List.mem_cons_of_mem _ he))]
+        ring
+
+theorem zipWith_sub_self (x : List K) : ∀ d ∈ List.zipWith (fun b a => b - a) x x, d = 0 := by
+  induction x with
+  | nil => simp
+  | cons a as ih =>
+    intro d hd
+    simp only [List.zipWith_cons_cons, List.mem_cons] at hd
+    rcases hd with rfl | hd
+    · exact sub_self a
+    · exact ih d hd
+
+/-- **C12** every period image of a point (any whole multiples of the periods along the periodic
+Cartesian components: the points `iter_mirror_points` has to produce) is at distance 0 from it -/
+theorem period_image_at_distance_zero (g : Grid K) (h : ∀ a ∈ g.axes, a.lo < a.hi) (x : List K)
+    (ks : List ℤ) :
+    g.distSq x x = 0 ∧ g.distSq x (shiftPeriodic g.diffFlags g.diffBounds ks x) = 0 := by
+  have h0 : g.distSq x x = 0 := by
+    unfold Grid.distSq Grid.differenceVector diffVec
+    exact normSq_wrapComponents_zero _ _ _ (g.diffBounds_pos h) (zipWith_sub_self x)
+  exact ⟨h0, by rw [(distance_invariant_under_period_shift g h x x ks).2.1, h0]⟩
+
 /-! ### 6. concrete witnesses: hypotheses are satisfiable, regression of defect F3 -/
 
 /-- an annular cylinder, periodic in `z`: `CylindricalSymGrid((1,3), (0,10), (4,5), periodic_z=True)` -/
@@ -1322,12 +1710,62 @@ theorem reflect_example : normAxis (-1 : K) 3 false true (7 / 2) = 5 / 2 := by
   simp only [normAxis, Bool.false_eq_true, if_false, if_true, absK_eq_abs, Nat.cast_ofNat, this]
   rw [abs_of_neg (by norm_num)]; norm_num
 
+/-- the radial axes of the witnesses are not periodic -/
+theorem ex_radial_not_periodic :
+    (exCyl : Grid K).RadialNotPeriodic ∧ (exSph : Grid K).RadialNotPeriodic ∧ (exCart : Grid K).RadialNotPeriodic := by
+  refine ⟨?_, ?_, ?_⟩
+  · intro _ a ha; simp [exCyl] at ha; rw [← ha]
+  · intro _ a ha; simp [exSph] at ha; rw [← ha]
+  · intro h; simp [exCart] at h
+
+/-- the seam distance of `cyl_seam_distance_fixed` after shifting the second point by three `z`
+periods in grid coordinates (`z = 19/2 + 30`) and in cell coordinates (`19/4 + 15` cells) -/
+theorem cyl_seam_distance_shifted :
+    (exCyl : Grid K).distSqGrid [2, 1 / 2] [2, 19 / 2 + 30] = 1 ∧
+      (exCyl : Grid K).distSqCell [2, 1 / 4] [2, 19 / 4 + 15] = 1 := by
+  have hg := (distance_invariant_under_period_shift_grid (exCyl : Grid K) exCyl_wf ex_radial_not_periodic.1
+    [2, 1 / 2] [2, 19 / 2] [0, 3] rfl rfl).2.1
+  have e1 : shiftAxes (exCyl : Grid K).axes [0, 3] [2, 19 / 2] = [2, 19 / 2 + 30] := by
+    simp [shiftAxes, exCyl]; norm_num
+  rw [e1, cyl_seam_distance_fixed] at hg
+  refine ⟨hg, ?_⟩
+  have hc : (exCyl : Grid K).cellToGrid [2, 1 / 4] = [2, 1 / 2] ∧
+      (exCyl : Grid K).cellToGrid [2, 19 / 4 + 15] = [2, 19 / 2 + 30] := by
+    constructor <;> simp [Grid.cellToGrid, exCyl, cellToGrid1, Grid.dxOf, dx] <;> norm_num
+  unfold Grid.distSqCell Grid.differenceVectorCell
+  rw [hc.1, hc.2]
+  exact hg
+
+/-- cell -> Cartesian -> cell on the annular cylinder: `hypot` returns 2 for the image of `r = 2` -/
+theorem cell_cart_cell_example :
+    (exCyl : Grid K).cartesianToCell 2 ((exCyl : Grid K).cellToCartesian [2, 1 / 4]) = [2, 1 / 4] := by
+  apply cell_cart_cell _ exCyl_wf _ rfl
+  · right; intro r hr
+    simp [Grid.cellToGrid, exCyl, cellToGrid1, Grid.dxOf, dx] at hr
+    rw [← hr]; norm_num
+  · norm_num
+  · simp [Grid.cellToCartesian, Grid.cellToGrid, exCyl, cellToGrid1, Grid.dxOf, dx, Grid.toCartesian,
+      cylToCart, Grid.radiusSq, normSq]
+    norm_num
+
 end
 
 /-- the hypotheses are satisfiable in a concrete field: all of the above at `K = ℚ` -/
 example : (exCyl : Grid ℚ).WF ∧ (exSph : Grid ℚ).WF ∧ (exCart : Grid ℚ).WF ∧
     (exCyl : Grid ℚ).distSqGrid [2, 1 / 2] [2, 19 / 2] = 1 :=
   ⟨exCyl_wf, exSph_wf, exCart_wf, cyl_seam_distance_fixed⟩
+
+/-- the hypotheses of the grid-level theorems of section 5b are satisfiable at `K = ℚ`:
+`grid_centres_and_dx` on the spherical witness (axis 0 = `(1, 2, 3)`), `normalizePoint_contained`
+on the fully periodic `exCart`, the period shift on the cylinder -/
+example : ((exSph : Grid ℚ).discretization[0]? = some ((2 - 1) / ((3 : ℕ) : ℚ))) ∧
+    (exCart : Grid ℚ).containsGrid ((exCart : Grid ℚ).normalizePoint false [7, -100]) = true ∧
+    (exCyl : Grid ℚ).RadialNotPeriodic ∧
+    (exCyl : Grid ℚ).distSqGrid [2, 1 / 2] [2, 19 / 2 + 30] = 1 :=
+  ⟨(grid_centres_and_dx exSph exSph_wf.1 0 ⟨1, 2, 3, false⟩ rfl).1,
+   normalizePoint_contained exCart exCart_wf.1 false [7, -100] rfl
+     (by intro a ha; simp [exCart] at ha; rcases ha with rfl | rfl <;> simp),
+   ex_radial_not_periodic.1, cyl_seam_distance_shifted.1⟩
 
 /-! ### 7. the closed forms are the integrals of the volume factors (`K = ℝ`, `pi = π`)
 
